@@ -155,7 +155,7 @@ Proof. apply cursor_boundary_spec. Qed.
 
 (* ---------------------------------------------------------------- the repaired defect, for the record *)
 
-(* BTree._delete as it was before /repo c9e1ffb: the root is collapsed only when something was
+(* BTree._delete as it was before /repo 68e82b5: the root is collapsed only when something was
    deleted *)
 Definition delete_tree_before_fix (t : nat) (root : tree) (key : Z) (exact : option Z) : res (tree * dout) :=
   do (root1, o) <- del t (depth root) true root key exact;
